@@ -6,6 +6,7 @@ import (
 	"fmt"
 	"io"
 	"sort"
+	"strconv"
 	"time"
 
 	protocol "github.com/hujm2023/go-sms-protocol"
@@ -107,6 +108,15 @@ func installPermute(r *core.Run) func() {
 // installSortedOrder: scenarios that call Build without exploring map orders (batch does that) still take the order
 // away from the Go runtime: wherever the library lets the simulator choose, the candidates come sorted. What a run
 // shows is then a function of its tape alone, also for a library whose result depends on that order.
+// wideInt is 1<<hi + lo where an int has 64 bits; on a 32-bit platform such a number does not exist and another
+// invalid coding number that keeps the low octet takes its place (the simulator also runs as a 386 binary).
+func wideInt(hi uint, lo int) int {
+	if strconv.IntSize == 64 {
+		return int(int64(1)<<hi + int64(lo))
+	}
+	return 1<<20 + lo
+}
+
 func installSortedOrder() func() {
 	verifhook.PermuteBatchFn = func(n int, key func(i int) [2]int, swap func(i, j int)) {
 		for i := 0; i < n; i++ {
@@ -159,11 +169,11 @@ func runBatch(r *core.Run) {
 	ctxRefused := false
 	isSMPP := c.Bool()
 	valid := []int{0, 8, 9, 15}
-	invalid := []int{1, 3, 4, 25, 99, 255, 256, 264, 265, 271, -248, -241, 1<<32 + 8, 1<<32 + 15}
+	invalid := []int{1, 3, 4, 25, 99, 255, 256, 264, 265, 271, -248, -241, wideInt(32, 8), wideInt(32, 15)}
 	famOf := cmppFamily
 	if isSMPP {
 		valid = []int{0, 1, 3, 8, 99}
-		invalid = []int{2, 4, 9, 15, 255, 256, 257, 259, 264, 355, -248, -157, 1<<32 + 8, 1<<32 + 3}
+		invalid = []int{2, 4, 9, 15, 255, 256, 257, 259, 264, 355, -248, -157, wideInt(32, 8), wideInt(32, 3)}
 		famOf = smppFamily
 	}
 	mk := func(n int) datacoding.ProtocolDataCoding {
